@@ -1075,6 +1075,94 @@ pub fn quiescent(h: &Hist, probe_op: u32) -> Vec<Finding> {
     out
 }
 
+
+// ---------------------------------------------------------------------------------------------
+// C06, first sentence: a refusal (Full / NotReady) with fewer than N values outstanding, or an
+// Empty / NotReady with a completely sent value waiting, may only happen while another thread is
+// in the middle of an operation on the queue.  For a refused call that overlaps no call of any
+// other thread (and with every stream's start position known exactly) the queue is quiescent
+// during the call, so the reference model applies to it.
+
+pub fn spurious_while_quiet(h: &Hist) -> (Vec<Finding>, u64) {
+    let mut out = Vec::new();
+    let mut judged = 0u64;
+    let calls = &h.ex.calls;
+    // calls that were still running when the execution was torn down overlap everything after
+    // their start; their start times are known for receives and sends only, so torn-down
+    // executions are not judged
+    if !h.completed() {
+        return (out, 0);
+    }
+    let overlaps_other = |x: &Call| calls.iter().any(|c| c.prog != x.prog && c.t0 < x.t1 && c.t1 > x.t0);
+    let exact: BTreeMap<u32, usize> = h
+        .streams
+        .keys()
+        .filter_map(|id| {
+            let (lo, hi) = h.start_range(*id);
+            if lo == hi {
+                Some((*id, lo))
+            } else {
+                None
+            }
+        })
+        .collect();
+    for x in calls {
+        let refused_send = matches!(&x.res, Res::Send(SendOut::Full(_), _) | Res::Send(SendOut::NotReady(_), _));
+        let empty_recv = matches!(&x.res, Res::Recv(RecvOut::Empty)) && x.kind != CallKind::TryIterNext;
+        if !(refused_send || empty_recv) || overlaps_other(x) {
+            continue;
+        }
+        let accepted_before = h.acc.values().filter(|v| v.t1 < x.t0).count();
+        if refused_send {
+            let alive: Vec<&StreamInfo> = h
+                .streams
+                .values()
+                .filter(|s| s.c1 < x.t0 && s.handles.values().any(|(c1, d0, _)| *c1 < x.t0 && *d0 > x.t1))
+                .collect();
+            if alive.is_empty() || alive.iter().any(|s| !exact.contains_key(&s.id)) {
+                continue;
+            }
+            judged += 1;
+            let max_out = alive
+                .iter()
+                .map(|s| {
+                    let delivered = s.deliveries.iter().filter(|d| d.t1 < x.t0).count();
+                    accepted_before.saturating_sub(exact[&s.id]).saturating_sub(delivered)
+                })
+                .max()
+                .unwrap_or(0);
+            if max_out < h.n {
+                out.push(h.base_facts(Finding::new(
+                    "SpuriousFullWhileQuiet",
+                    format!(
+                        "{:?} at [{},{}] was refused although no other thread was inside an operation and the slowest stream had only {} of N = {} values outstanding",
+                        x.kind, x.t0, x.t1, max_out, h.n
+                    ),
+                )));
+                break;
+            }
+        } else if let (Some(s), Some(start)) = (h.streams.get(&x.stream), exact.get(&x.stream)) {
+            let delivered = s.deliveries.iter().filter(|d| d.t1 < x.t0).count();
+            let available = accepted_before.saturating_sub(*start).saturating_sub(delivered);
+            judged += 1;
+            if available > 0 {
+                out.push(
+                    h.base_facts(Finding::new(
+                        "SpuriousEmptyWhileQuiet",
+                        format!(
+                            "{:?} on stream {} at [{},{}] reported Empty/NotReady although no other thread was inside an operation and {} completely sent value(s) were waiting for that stream",
+                            x.kind, x.stream, x.t0, x.t1, available
+                        ),
+                    ))
+                    .fact("stream_handles", s.handles.len() as u64),
+                );
+                break;
+            }
+        }
+    }
+    (out, judged)
+}
+
 // ---------------------------------------------------------------------------------------------
 // payload / ledger based oracles
 
